@@ -71,6 +71,7 @@ pub fn input_labels(c: &Collection) -> Vec<&'static str> {
             "many-samples" => "aim:many-samples",
             "variant-next-to-n-run" => "aim:variant-next-to-n-run",
             "orphan-swarm" => "aim:orphan-swarm",
+            "sample-revisited-in-a-later-file" => "aim:sample-revisited-in-a-later-file",
             _ => "aim:other",
         });
     }
